@@ -5,7 +5,9 @@ All interleavings of handlers are NOT explored (that is model checking). Decided
                   version already stored for that URI and the version being stored, made under the same write guard
   2 PUBLISHVER    every publish_diagnostics of the analysis passes the version of the text that was analysed
   3 HANDLERS      did_open / did_change hand text and version of the same notification to the analysis; did_close
-                  removes the entry under a write guard
+                  removes the entry under a write guard and before awaiting anything but the lock
+  4 STOREFIRST    the analysed state is stored before diagnostics are published
+  5 WHOMAYWRITE   only analyze_document and did_close write `documents`; no handler skips the analysis of a change
   (info)          guards of the documents lock that are live across an await point are reported in the evidence
 """
 from engines import (backward_slice, blocks_dominated_by_edge, body_and_closures, callee_generic, callee_name,
